@@ -21,6 +21,8 @@ class Kit:
 
     def _next(self, kind):
         rec = self.env.rec
+        if not hasattr(rec, "privvals"):
+            return 0               # file-based backend: no in-memory recorder
         return len(rec.privvals) if kind == "priv" else len(rec.pubvals)
 
     def _rec(self, nm, kind, idx=None):
